@@ -10,6 +10,7 @@ import ReuseVerif.Lemmas.Splice
 import ReuseVerif.Lemmas.FirstLine
 import ReuseVerif.Lemmas.C08FirstLineOld
 import ReuseVerif.Lemmas.C08SpliceGeneral
+import ReuseVerif.Lemmas.C08FirstLineGeneral
 namespace C08
 open Py Model Spec C08L C10L
 
@@ -354,6 +355,59 @@ theorem C08_first_line_replace {c : HdrCfg} {info : Extracted} {t out sb : Text}
     obtain ⟨b0, h0, a0⟩ := x
     exact C08_first_line_replace_old hs hstyle (fun _ => hno) h hfound hf
 
+/-- **First line stays first, replacing mode, every text** (no hypothesis on line boundaries; line level).  For
+    every style of the table, every request and every text that starts with one of the style's first-line markers
+    (`sb`, the first that fits): the text's first line `l` — as `str.splitlines()` reads it — starts with `sb`, and
+    the first line of the output is `l`, or `l` without its trailing white space (when nothing but white space
+    follows it above the header).  Covers: no header in the file, marker line above the old block, marker line
+    inside the old block at the top (also when a form feed or a lone `\r` separates it from the rest of the block:
+    the boundary is rewritten to `\n`, the line stays first). -/
+theorem C08_first_line_general {c : HdrCfg} {info : Extracted} {t out sb : Text}
+    (hs : c.style ∈ Generated.styles) (hstyle : (c.style.name == "EmptyCommentStyle") = false)
+    (h : findAndReplaceHeader c info t = .ok out)
+    (hf : c.style.shebangs.find? (startsWith t ·) = some sb) :
+    ∃ l ls, splitLines t = l :: ls ∧ sb <+: l ∧
+      ((splitLines out).head? = some l ∨ (splitLines out).head? = some (rstrip l)) := by
+  obtain ⟨hdr, _, hout⟩ := C08_replace_sections h
+  have hmem := List.mem_of_find?_eq_some hf
+  obtain ⟨hne, hnbk, hnb⟩ := C08_shebang_table _ hs sb hmem
+  have hst : startsWith t sb = true := by simpa using List.find?_some hf
+  cases hfound : findFirstSpdxComment c t with
+  | none =>
+    have hsec : replaceSections c t = ((extractShebang sb t).1, [], (extractShebang sb t).2) := by
+      unfold replaceSections
+      simp only [hfound, hstyle, Bool.false_eq_true, if_false]
+      rw [moveShebang_nil _ _ (fun x hx => (C08_shebang_table _ hs x hx).1), hf]
+    rw [hsec] at hout
+    obtain ⟨l, ls, hlines, hlnb, hsbl, hbeg⟩ := first_line_of_extract hne hnbk hst
+    exact ⟨l, ls, hlines, hsbl,
+      first_line_placed hlnb hbeg (placed_first _ hout (extractShebang_starts hne hnbk hst) hnb)⟩
+  | some x =>
+    obtain ⟨b0, h0, a0⟩ := x
+    have hsec : replaceSections c t = moveShebang c.style.shebangs b0 h0 a0 := by
+      unfold replaceSections
+      simp only [hfound, hstyle, Bool.false_eq_true, if_false]
+    rw [hsec] at hout
+    obtain ⟨l, ls, hlines, hlnb, hbeg, sbl, hbsbl, hpre⟩ :=
+      first_line_general_old (C08_pseudo_table _ hs) hfound (C08_shebang_table _ hs) hmem hst hdr
+    rw [← hout] at hpre
+    exact ⟨l, ls, hlines, prefix_of_line (List.isPrefixOf_iff_prefix.mp hst) hnbk hbeg, first_line_placed hlnb hbsbl hpre⟩
+
+/-- the same for `--no-replace` -/
+theorem C08_first_line_add_general {c : HdrCfg} {info : Extracted} {t out sb : Text}
+    (hs : c.style ∈ Generated.styles) (h : addNewHeader c info t = .ok out)
+    (hf : c.style.shebangs.find? (startsWith t ·) = some sb) :
+    ∃ l ls, splitLines t = l :: ls ∧ sb <+: l ∧
+      ((splitLines out).head? = some l ∨ (splitLines out).head? = some (rstrip l)) := by
+  obtain ⟨hdr, _, hout⟩ := C08_add_sections h
+  obtain ⟨hne, hnbk, hnb⟩ := C08_shebang_table _ hs sb (List.mem_of_find?_eq_some hf)
+  have hst : startsWith t sb = true := by simpa using List.find?_some hf
+  have hsec : addSections c t = extractShebang sb t := by simp [addSections, hf]
+  rw [hsec] at hout
+  obtain ⟨l, ls, hlines, hlnb, hsbl, hbeg⟩ := first_line_of_extract hne hnbk hst
+  exact ⟨l, ls, hlines, hsbl,
+    first_line_placed hlnb hbeg (placed_first false hout (extractShebang_starts hne hnbk hst) hnb)⟩
+
 /-! ### non-vacuity: the hypotheses are satisfiable, the relation is not trivial
 
 (That `findAndReplaceHeader … = .ok out` is satisfiable is shown on every run by the correspondence streams —
@@ -380,6 +434,12 @@ example : placeHeader "# h".toList "#!/bin/sh\n".toList "x\n".toList true = "#!/
 example : splitLines "#!/bin/sh\x0c# SPDX-License-Identifier: MIT\nx\n".toList =
     ["#!/bin/sh".toList, "# SPDX-License-Identifier: MIT".toList, "x".toList] := by decide +kernel
 example : (extractShebang "#!".toList "#!/bin/sh\n# SPDX-License-Identifier: MIT\n".toList).1 = "#!/bin/sh\n".toList := by
+  decide +kernel
+/-- the two alternatives of `C08_first_line_general`: the first line loses its trailing blanks when it is the only
+    marker line, and is kept exactly when another marker line follows it -/
+example : (splitLines (placeHeader "# h".toList "#!/bin/sh \n".toList "x\n".toList false)).head? = some (rstrip "#!/bin/sh ".toList) := by
+  decide +kernel
+example : (splitLines (placeHeader "# h".toList "#!/bin/sh \n#!x\n".toList "x\n".toList false)).head? = some "#!/bin/sh ".toList := by
   decide +kernel
 /-- the relation excludes something: text below the header cannot lose a character -/
 example : ¬ Below "x = 1\n".toList "x = 1".toList := by
